@@ -293,7 +293,7 @@ Proof.
     { rewrite Hmv, Eip. rewrite N.div_0_l by (apply N.pow_nonzero; assumption). reflexivity. }
     destruct (trunc_arith rm (rden x) 0 rm b (N.of_nat j) (N.of_nat z + N.max sf 1) V r Hd Hb0) as [Hq Hex];
       try assumption; try lia.
-    { fold V r in Hid. lia. }
+    change (iter_rem (base_val base) (rden x) j rm) with r.
     split.
     + rewrite Hv, Hmask0. change (qN 0) with 0%Q in *. rewrite <- Hq. reflexivity.
     + rewrite andb_comm. destruct exi eqn:Ee.
@@ -312,7 +312,7 @@ Proof.
       rewrite Hm, Hival in Hv.
       destruct (trunc_arith (rnum x) (rden x) ip rm b (N.of_nat j) (sf - L) V r Hd Hb0 Hnum) as [Hq Hex];
         try assumption; try lia.
-      { fold V r in Hid. lia. }
+      change (iter_rem (base_val base) (rden x) j rm) with r.
       split.
       * rewrite Hv, Hq. reflexivity.
       * rewrite Hexi1. cbn [andb]. exact Hex.
